@@ -95,12 +95,13 @@ def coq_makefile():
             raise RuntimeError("coq_makefile failed:\n" + out)
 
 
-def coq_make(targets, timeout=3000):
+def coq_make(targets, timeout=1500):
     """Returns (ok, output).  Builds with -k so that independent files still compile when a tie
     lemma or a proof breaks (the model must stay runnable for the correspondence)."""
     coq_makefile()
-    rc, out = sh(["timeout", str(timeout), "make", "-k", "-j16"] + targets, cwd=COQ,
-                 timeout=timeout + 60)
+    # a tie lemma over mutated code may blow up during symbolic evaluation: bound memory and time
+    rc, out = sh("ulimit -v 10000000; exec timeout %d make -k -j16 %s" % (timeout, " ".join(targets)),
+                 cwd=COQ, timeout=timeout + 60)
     return rc == 0, out
 
 
